@@ -15,7 +15,7 @@ import uuid
 
 from .conversions import convertBooleanStringToBoolean
 
-from .constants import ( PREFORMATTED_TAGS, IMPLICIT_SELF_CLOSING_TAGS, TAG_NAMES_TO_ADDITIONAL_ATTRIBUTES,
+from .constants import ( PREFORMATTED_TAGS, PRESERVE_CONTENTS_TAGS, IMPLICIT_SELF_CLOSING_TAGS, TAG_NAMES_TO_ADDITIONAL_ATTRIBUTES,
     COMMON_JAVASCRIPT_ATTRIBUTES, ALL_JAVASCRIPT_EVENT_ATTRIBUTES, TAG_ITEM_BINARY_ATTRIBUTES,
     TAG_ITEM_ATTRIBUTE_LINKS, TAG_ITEM_ATTRIBUTES_SPECIAL_VALUES, TAG_ITEM_CHANGE_NAME_FROM_ATTR,
     TAG_ITEM_CHANGE_NAME_FROM_ITEM, TAG_ITEM_BINARY_ATTRIBUTES_STRING_ATTR, TAG_ITEM_ATTRIBUTES_SPECIAL_VALIDATION,
@@ -1503,6 +1503,14 @@ class AdvancedTag(object):
         # Do not add any indentation to the end of preformatted tags.
         if self._indent and tagName in PREFORMATTED_TAGS:
             return "</%s>" %(tagName, )
+
+        # The contents of script/style are kept as they are. If they already end with the line break and
+        #   indentation that belongs before this end tag (i.e. this is output of a previous formatting pass),
+        #   do not add them a second time.
+        if self._indent and tagName in PRESERVE_CONTENTS_TAGS and self.blocks:
+            lastBlock = self.blocks[-1]
+            if not isinstance(lastBlock, AdvancedTag) and lastBlock.endswith(self._indent):
+                return "</%s>" %(tagName, )
 
         # Otherwise, indent the end of this tag
         return "%s</%s>" %(self._indent, tagName)
